@@ -597,6 +597,17 @@ def enum_layouts(tier):
                     yield {"src": src, "ops": [op]}
 
 
+def enum_repartition_grid(tier):
+    """repartition(npartitions=new) of a bag of `old` one- or two-element partitions for EVERY pair new <= old <= 32
+    (thorough 64): the new boundaries are int(i * old / new) in floating point, whose last value may fall short of `old`."""
+    top = 32 if tier == "quick" else 64
+    for old in range(1, top + 1):
+        sizes = [1 + (i % 2) for i in range(old)]
+        data = list(range(sum(sizes)))
+        for new in range(1, old + 1):
+            yield {"src": {"kind": "int", "data": data, "part": {"how": "sizes", "sizes": sizes}}, "ops": [{"op": "repartition", "npartitions": new}]}
+
+
 def _reps(ops, second):
     """representatives of one family: first and last variant, plus (as second operation) every variant that reads its
     input bag twice"""
@@ -742,6 +753,16 @@ SUBCHECKS = [
         classes=classes,
         exhaustive=True,
         doc="every layout (empty partitions included) of a fixed 4-element (thorough 5) sequence per element kind into <=3 (thorough 4) partitions x every catalogue operation",
+    ),
+    Sub(
+        "repartition-grid",
+        check,
+        kind="enum",
+        cases=enum_repartition_grid,
+        nontrivial=lambda spec: len(spec["src"]["part"]["sizes"]) >= 3,
+        classes=lambda spec: ["repartition-npartitions"],
+        exhaustive=True,
+        doc="repartition(npartitions=new) for every pair new <= old <= 32 (thorough 64) partitions: same elements in the same order",
     ),
     Sub(
         "pairs",
